@@ -8,6 +8,8 @@ pub mod c04;
 pub mod c05;
 pub mod c06;
 pub mod c12;
+pub mod c13;
+pub mod c14;
 pub mod c18;
 
 pub struct Sub {
@@ -25,7 +27,7 @@ pub struct Prop {
 }
 
 pub fn all() -> Vec<Prop> {
-    vec![c01::prop(), c02::prop(), c03::prop(), c04::prop(), c05::prop(), c06::prop(), c12::prop(), c18::prop()]
+    vec![c01::prop(), c02::prop(), c03::prop(), c04::prop(), c05::prop(), c06::prop(), c12::prop(), c13::prop(), c14::prop(), c18::prop()]
 }
 
 pub fn get(id: &str) -> Option<Prop> {
